@@ -24,7 +24,8 @@ pub fn run(o: &Opts) -> Res<()> {
         "lookup" => {
             let kind = o.get("kind").unwrap_or("coop").to_owned();
             let nn = o.num("n", 20) as usize;
-            run_scenario(&out, seed, move |net| lookup(net, seed, kind, nn))?
+            let age = o.num("age", 0);
+            run_scenario(&out, seed, move |net| lookup(net, seed, kind, nn, age))?
         }
         "maint" => {
             let peers = o.num("peers", 3) as usize;
@@ -306,7 +307,7 @@ async fn flood(net: Net, seed: u64, corpus: String) {
 ///   kind = coop    (C02): every queried node answers within one second with the truly closest nodes
 ///   kind = hostile (C03, C12): loss, delay, duplication, forged / replayed / mis-addressed responses, two concurrent searches
 ///   kind = timing  (C04): silence, errors, answers around the 1.5 s boundaries, chains of ever closer nodes, send failures
-async fn lookup(net: Net, seed: u64, kind: String, n: usize) {
+async fn lookup(net: Net, seed: u64, kind: String, n: usize, age_min: u64) {
     let mut rng = StdRng::seed_from_u64(seed);
     let my_id = rand_id(&mut rng);
     let target = rand_id(&mut rng);
@@ -420,6 +421,15 @@ async fn lookup(net: Net, seed: u64, kind: String, n: usize) {
         let s4 = search(&net, &dht, me, 4, other, true);
         let _ = tokio::time::timeout(lim, s4).await;
         net.with(|nn| nn.send_fail_all = false);
+    }
+    // a long-lived node: the table ages (contacts turn questionable 15 minutes after their last answer and are re-validated by the
+    // refresh, far buckets last), searches for fresh targets are started at scattered instants of that history
+    let rounds = age_min * 60 / 180;
+    for k in 0..rounds {
+        sleep_ms(165_000 + rng.gen_range(0..30_000)).await;
+        let t = rand_id(&mut rng);
+        let s = search(&net, &dht, me, 10 + k as u64, t, true);
+        let _ = tokio::time::timeout(lim, s).await;
     }
     sleep_ms(6000).await;
     api_state(&net, &dht, me).await;
